@@ -107,7 +107,12 @@ fn build_world(w: &WorldSpec) -> ChainBuilder {
             if ti == 0 {
                 txs.push(coinbase(h, 9, outs));
             } else {
-                txs.push(Tx { version: 1, segwit: false, inputs: vec![TxIn::spend([0xee; 32], ti as u32)], outputs: outs, locktime: 0 });
+                // all non-coinbase transactions of a block have the SAME serialised size and the SAME total value, both larger
+                // than the coinbase's: "first one on ties" figures (biggest value / size tx) depend on the order of evaluation
+                // if anything about them is computed inside a parallel region
+                let outs2: Vec<TxOut> = (0..*n_out).map(|k| TxOut { value: 60 * COIN_VALUE + k as u64, script: script::p2pkh(&script::h20(ti as u8 * 16 + k as u8)) }).collect();
+                txs.push(Tx { version: 1, segwit: false, inputs: (0..4).map(|j| TxIn::spend([0xe0 + ti as u8; 32], j)).collect(), outputs: outs2, locktime: 0 });
+                let _ = outs;
             }
         }
         cb.push_raw(txs);
